@@ -265,6 +265,11 @@ def handle : List String → Option String
       | some (pv, j) => if j == b.size then showPV pv else "trailing"
       | none => "none"
     some s!"{a} same={a == c}"
+  | ["PSTRM", h] => do
+    let bs ← unhex h
+    match P.parseStreamObj (bs.length + 1) bs with
+    | some (kvs, body, rest) => some s!"{Rd.toStr (P.show' (.dict kvs))} body={hexB body} rest={hexB rest}"
+    | none => some "none"
   | "HIST" :: ts => hist ts
   | "DOC" :: h :: infl => do
     let b ← unhexBA h
